@@ -164,18 +164,21 @@ class SkBaseTransformStacking(SkBaseTransform):
         if "method" in values:
             self.method = values["method"]
             del values["method"]
-        for k, v in values.items():
-            if not k.startswith("models_"):
-                raise ValueError(f"Parameter '{k}' must start with 'models_'.")
+        own = {k: v for k, v in values.items() if not k.startswith("models_")}
+        if own:
+            super().set_params(**own)
         d = len("models_")
         pars = [{} for m in self.models]
         for k, v in values.items():
+            if k in own:
+                continue
             si = k[d:].split("__", 1)
             i = int(si[0])
-            pars[i][k[d + 1 + len(si) :]] = v
+            pars[i][k[d + len(si[0]) + 2 :]] = v
         for p, m in zip(pars, self.models):
             if p:
                 m.set_params(**p)
+        return self
 
     #################
     # common methods
